@@ -69,11 +69,15 @@ def main():
                 shutil.copy(os.path.join(a.mutdir, 'patch.diff'), d)
                 shutil.copy(demo, d)
                 if os.path.exists(os.path.join(a.mutdir, 'README.txt')): shutil.copy(os.path.join(a.mutdir, 'README.txt'), d)
+            prev = {}
+            if os.path.exists(os.path.join(d, 'meta.json')):
+                try: prev = json.load(open(os.path.join(d, 'meta.json')))
+                except Exception: prev = {}
             readme = ''
             if os.path.exists(os.path.join(d, 'README.txt')): readme = open(os.path.join(d, 'README.txt')).read()
-            elif os.path.exists(os.path.join(d, 'meta.json')): readme = json.load(open(os.path.join(d, 'meta.json'))).get('breaks', '')
+            elif prev: readme = prev.get('breaks', '')
             meta = {'property': a.pid, 'breaks': readme.strip(), 'needs_to_manifest': 'see "breaks" (author\'s README)',
-                    'confirmed': {'patch_applies': True, 'repo_tests_with_patch': res.get('tests_with_patch'), 'demo_fails_with_patch': True, 'demo_passes_without': True},
+                    'confirmed': {'patch_applies': True, 'repo_tests_with_patch': res.get('tests_with_patch') or prev.get('confirmed', {}).get('repo_tests_with_patch'), 'demo_fails_with_patch': True, 'demo_passes_without': True},
                     'what_i_ran': [f'patch -p1 < patch.diff in a scratch copy of /repo', 'pytest tests (31 pass)', 'demo.py with and without the patch',
                                    f'./vcheck {a.pid} --tier {a.tier} with PYTHONPATH=<scratch>/src'],
                     'check_results': res['checks'], 'detected_by': [k for k, v in res['checks'].items() if v['exit'] == 1 and v['violations']]}
